@@ -20,7 +20,7 @@ BUILTINS = {
     "len", "range", "min", "max", "ord", "int", "sum", "abs", "str", "float", "round", "tuple", "list", "dict", "set",
     "sorted", "isinstance", "iter", "next", "zip", "enumerate", "all", "any", "repr", "bool", "hash", "chr", "divmod",
     "True", "False", "None", "print", "getattr", "hasattr", "map", "filter", "reversed", "type", "frozenset", "bytes",
-    "ValueError", "KeyError", "IndexError", "TypeError", "Exception", "StopIteration", "NotImplemented", "format", "id", "super", "object", "slice",
+    "open", "ValueError", "KeyError", "IndexError", "TypeError", "Exception", "StopIteration", "NotImplemented", "format", "id", "super", "object", "slice",
 }
 IMPURE_CALLS = {"time", "randint", "random", "monotonic", "perf_counter", "getenv", "now", "input", "open"}
 
@@ -358,8 +358,18 @@ def check_function(repo, fn: FuncInfo, descriptor_attrs: Optional[Dict[str, Set[
                 return cache_kind(v)
             if nm in fn.params:
                 return None
-            if nm not in local_assigned and mod.global_assign_count(nm) >= 1:
-                return "shared"
+            # a variable of an enclosing function is created afresh for each call of that function
+            outer = fn.parent
+            while outer is not None:
+                if nm in outer.params or any(isinstance(x, ast.Name) and x.id == nm and isinstance(x.ctx, ast.Store) for x in walk_local(outer.node)):
+                    return None
+                outer = outer.parent
+            if nm not in local_assigned:
+                try:
+                    mod.global_assign(nm)
+                    return "shared"
+                except Exception:
+                    return None
             return None
         if isinstance(expr, ast.Attribute) and isinstance(expr.value, ast.Name):
             if selfname and expr.value.id == selfname:
